@@ -118,6 +118,17 @@ CHECKS = {
              "against a Python set model (values, positions, domains, rendering, equality of differently built equal sets). H4 asserts canonical form inside the library.",
         note="Scoped, as the statement is, to ranges ending at or below 2^64-1. Exhaustive only within the small universe; larger sets are sampled.",
         design="DESIGN.md 5-C16"),
+    "C20": dict(
+        technique="round-trip monitors: header-derived constant values, rendering read back by the library, alias selection equality, CLI output re-parsed",
+        category="exploration",
+        text="All ~600 constant words of the vocabulary are evaluated: `value` must equal the number the installed dwarf.h/elf.h define (parsed independently), the full "
+             "rendering must read back as an equal constant of the same domain (its own name unless the headers give the number several names); every ?TAG_x/?AT_x/@AT_x/"
+             "?FORM_x/?OP_x alias must select exactly what the long spelling and the explicit `label == DW_..` comparison select on the sample files; lattice integers in "
+             "every arithmetic domain and via %d %x %o %b must re-parse to an equal value of the same domain; all strings of length <= 2 (3 in thorough) over a hostile "
+             "16-byte alphabet plus random longer ones are printed by the real CLI inside sequences (one and two levels deep) and each printed line is read back by the "
+             "library and must denote the same bytes.",
+        note="Known finding F9: zero in hex/oct/bin renders as '0' (reads back as decimal) -- matched by (domain, zero) exactly.",
+        design="DESIGN.md 5-C20"),
 }
 
 ALL = ["C%02d" % i for i in range(1, 21)]
